@@ -137,6 +137,21 @@ def steps (G : Prog α) (sched : α → Nat → Nat) : Nat → State α → Stat
 def bootState (G : Prog α) (runtime : α) : State α :=
   call G { replaced := [], stack := [], trace := [] } runtime
 
+/-- compiler.go:193 `$packages["runtime"].$init();` is a plain synchronous call outside any goroutine: if an
+    initialiser suspended there, the saved frame object returned by `$init` would be discarded and nothing would ever
+    resume it. One step of that synchronous phase: like `step`, except that a suspension loses the whole stack. -/
+def stepSync (G : Prog α) (sched : α → Nat → Nat) (s : State α) : State α :=
+  match s.stack with
+  | [] => s
+  | f :: _ =>
+    match f.imps, f.items, f.cur with
+    | [], _ :: _, some (_ + 1) => { s with stack := [], trace := s.trace ++ [Ev.yield] }
+    | _, _, _ => step G sched s
+
+def stepsSync (G : Prog α) (sched : α → Nat → Nat) : Nat → State α → State α
+  | 0, s => s
+  | n + 1, s => stepsSync G sched n (stepSync G sched s)
+
 /-- the direct-style description of one complete `$init` activation (used by the proofs and by the driver):
     events of `p.$init()` called in a state where `repl` are the replaced packages. -/
 def itemEvs (sched : α → Nat → Nat) (p : α) (i : Nat) : List (Ev α) :=
